@@ -4,8 +4,9 @@ tests with the change, demo with / without it, then apply it to /repo, run the c
 import json, os, shutil, subprocess, sys
 pid = sys.argv[1]
 checks = [pid] + sys.argv[2:]
-wt = f"/tmp/seed/{pid}"
-out = f"/verif/seeded/{pid}"
+root, suffix = os.environ.get("SEED_ROOT", "/tmp/seed"), os.environ.get("SEED_SUFFIX", "")   # later rounds: /tmp/seed3, "-r3"
+wt = f"{root}/{pid}"
+out = f"/verif/seeded/{pid}{suffix}"
 os.makedirs(out, exist_ok=True)
 env = dict(os.environ, PYTHONPATH=wt, TQDM_DISABLE="1")
 run = lambda cmd, **kw: subprocess.run(cmd, capture_output=True, text=True, **kw)
@@ -17,9 +18,10 @@ for f in ("demo.py", "NOTE.md"):
 t = run(["/venv/bin/python", "-m", "pytest", "-q", "-p", "no:cacheprovider", "--timeout=900", "tests"], cwd=wt, env=env)
 tests = [l for l in t.stdout.split("\n") if " passed" in l or " failed" in l][-1:]
 d1 = run(["/venv/bin/python", "demo.py"], cwd=wt, env=env)
-run(["git", "-C", wt, "stash"])
+# (no `git stash`: the stash ref is shared by all worktrees of a repository)
+run(["git", "-C", wt, "apply", "-R", f"{out}/patch.diff"])
 d0 = run(["/venv/bin/python", "demo.py"], cwd=wt, env=env)
-run(["git", "-C", wt, "stash", "pop"])
+run(["git", "-C", wt, "apply", f"{out}/patch.diff"])
 res = {}
 ap = run(["git", "-C", "/repo", "apply", f"{out}/patch.diff"])
 try:
